@@ -37,7 +37,12 @@ Definition port_face_gen (check_str : bool) (scheme : str) (expected : option N)
       && match nthv i_host_sub o, nthv i_host_port_sub o, nthv i_str o with
          | WStr hs, WStr hps, WStr s =>
              let want := match shown with Some x => hs ++ port_suffix x | None => hs end in
-             str_eqb hps want && (negb check_str || str_eqb (str_hostport s) want)
+             str_eqb hps want
+             && (if check_str then str_eqb (str_hostport s) want
+                 else match expected, shown with
+                      | Some _, None => str_eqb (str_hostport s) want     (* a written default port is elided by str() however the URL was made *)
+                      | _, _ => true                                      (* otherwise an encoded=True authority is kept verbatim *)
+                      end)
          | WNone, WNone, WStr _ => match expected with None => true | Some _ => false end
          | _, _, _ => false
          end
